@@ -136,6 +136,7 @@ type Exec struct {
 	stack    []string
 	binders  int
 	nameCount map[string]int
+	pureTyped map[string]bool
 	neutralMemo map[*types.Func]int
 	specs    map[string]*specInfo
 	visitedStack []func(*State, Term) Term
@@ -177,7 +178,7 @@ func (e *Exec) assumeGlobal(t Term) { e.sc.Assert(t) }
 
 func (e *Exec) oblige(st *State, name, kind string, props []string, goal Term, pos token.Pos) *Obligation {
 	if st.dead || st.pc.S == "false" || goal.S == "true" {
-		if goal.S != "true" || kind == "post" || kind == "lemma" {
+		if goal.S != "true" || kind == "post" || kind == "lemma" || ((kind == "callsite" || kind == "returnsite") && !st.dead && st.pc.S != "false") {
 			// still record trivially true post obligations so that counts are stable
 		} else {
 			return nil
@@ -645,8 +646,48 @@ func (e *Exec) deferStmt(st *State, s *ast.DeferStmt) {
 	if st.pc.S != "true" && !e.deferUnconditionalOK(call) {
 		e.note("defer under a condition treated as unconditional at " + e.posStr(s.Pos()))
 	}
+	// arguments (and the receiver) are evaluated when the defer statement runs: snapshot the variables they read
+	snap := map[types.Object]Val{}
+	grab := func(x ast.Expr) {
+		ast.Inspect(x, func(n ast.Node) bool {
+			if _, isLit := n.(*ast.FuncLit); isLit {
+				return false
+			}
+			if id, ok := n.(*ast.Ident); ok {
+				if obj, ok := e.info().Uses[id].(*types.Var); ok {
+					if v, ok := st.vars[obj]; ok {
+						snap[obj] = v
+					}
+				}
+			}
+			return true
+		})
+	}
+	for _, a := range call.Args {
+		grab(a)
+	}
+	if sel, ok := ast.Unparen(call.Fun).(*ast.SelectorExpr); ok {
+		grab(sel.X)
+	}
 	f.defers = append(f.defers, func(st2 *State) {
+		saved := map[types.Object]*Val{}
+		for o, v := range snap {
+			if cur, ok := st2.vars[o]; ok {
+				c := cur
+				saved[o] = &c
+			} else {
+				saved[o] = nil
+			}
+			st2.vars[o] = v
+		}
 		e.ev(st2, call)
+		for o, c := range saved {
+			if c == nil {
+				delete(st2.vars, o)
+			} else {
+				st2.vars[o] = *c
+			}
+		}
 	})
 }
 
